@@ -1596,7 +1596,9 @@ class BaseLoss(object):
 
         if p == q:
             if n == m:
-                x = x
+                # one value per observation of a single state arrives as a
+                # vector: keep the (n, p) shape the sensitivity code multiplies by
+                x = np.reshape(x, (n, p))
             elif m == 1:
                 x = np.ones((n, p))*x
             else:
